@@ -563,6 +563,57 @@ where
     }
 }
 
+#[cfg(futures_intrusive_verif)]
+impl<MutexType: RawMutex, T, A> GenericChannel<MutexType, T, A>
+where
+    A: RingBuf<Item = T>,
+{
+    /// Verification hook: receive queue and send queue, each from head
+    /// (newest) to tail (oldest). Returns the number of entries written.
+    pub fn verif_snapshot(
+        &self,
+        recv_out: &mut [crate::verif::VerifNode],
+        send_out: &mut [crate::verif::VerifNode],
+    ) -> (usize, usize) {
+        let guard = self.inner.lock();
+        let mut n = 0;
+        guard.receive_waiters.verif_for_each(recv_out.len(), |node| {
+            recv_out[n] = crate::verif::VerifNode {
+                addr: node as *const _ as usize,
+                state: match node.state {
+                    RecvPollState::Unregistered => 0,
+                    RecvPollState::Registered => 1,
+                    RecvPollState::Notified => 2,
+                },
+                waker: crate::verif::waker_data(&node.task),
+                extra: 0,
+            };
+            n += 1;
+        });
+        let mut m = 0;
+        guard.send_waiters.verif_for_each(send_out.len(), |node| {
+            send_out[m] = crate::verif::VerifNode {
+                addr: node as *const _ as usize,
+                state: match node.state {
+                    SendPollState::Unregistered => 0,
+                    SendPollState::Registered => 1,
+                    SendPollState::SendComplete => 2,
+                },
+                waker: crate::verif::waker_data(&node.task),
+                extra: node.value.is_some() as u64,
+            };
+            m += 1;
+        });
+        (n, m)
+    }
+
+    /// Verification hook: (is_closed, buffered elements).
+    pub fn verif_state(&self) -> (bool, usize) {
+        let guard = self.inner.lock();
+        (guard.is_closed, guard.buffer.len())
+    }
+}
+
 /// A stream that receives from a `GenericChannel`.
 ///
 /// Not driving the `ChannelStream` to completion after it has been polled
@@ -981,6 +1032,112 @@ mod if_alloc {
                     future: None,
                     is_terminated: false,
                 }
+            }
+        }
+
+        #[cfg(futures_intrusive_verif)]
+        impl<MutexType, T, A> GenericSender<MutexType, T, A>
+        where
+            MutexType: RawMutex,
+            A: RingBuf<Item = T>,
+        {
+            /// Verification hook, see `GenericChannel::verif_snapshot`.
+            pub fn verif_snapshot(
+                &self,
+                recv_out: &mut [crate::verif::VerifNode],
+                send_out: &mut [crate::verif::VerifNode],
+            ) -> (usize, usize) {
+                self.inner.channel.verif_snapshot(recv_out, send_out)
+            }
+
+            /// Verification hook: (is_closed, buffered elements).
+            pub fn verif_state(&self) -> (bool, usize) {
+                self.inner.channel.verif_state()
+            }
+
+            /// Verification hook: (sender handles, receiver handles).
+            pub fn verif_counts(&self) -> (usize, usize) {
+                (
+                    self.inner.senders.load(Ordering::SeqCst),
+                    self.inner.receivers.load(Ordering::SeqCst),
+                )
+            }
+
+            /// Verification hook: an observer of the shared state.
+            pub fn verif_observer(&self) -> VerifObserver<MutexType, T, A> {
+                VerifObserver {
+                    inner: self.inner.clone(),
+                }
+            }
+        }
+
+        #[cfg(futures_intrusive_verif)]
+        impl<MutexType, T, A> GenericReceiver<MutexType, T, A>
+        where
+            MutexType: RawMutex,
+            A: RingBuf<Item = T>,
+        {
+            /// Verification hook, see `GenericChannel::verif_snapshot`.
+            pub fn verif_snapshot(
+                &self,
+                recv_out: &mut [crate::verif::VerifNode],
+                send_out: &mut [crate::verif::VerifNode],
+            ) -> (usize, usize) {
+                self.inner.channel.verif_snapshot(recv_out, send_out)
+            }
+
+            /// Verification hook: (is_closed, buffered elements).
+            pub fn verif_state(&self) -> (bool, usize) {
+                self.inner.channel.verif_state()
+            }
+
+            /// Verification hook: (sender handles, receiver handles).
+            pub fn verif_counts(&self) -> (usize, usize) {
+                (
+                    self.inner.senders.load(Ordering::SeqCst),
+                    self.inner.receivers.load(Ordering::SeqCst),
+                )
+            }
+        }
+
+        /// Verification hook: keeps the shared state observable after all
+        /// handles are gone, without taking part in the handle counts.
+        #[cfg(futures_intrusive_verif)]
+        pub struct VerifObserver<MutexType, T, A>
+        where
+            MutexType: RawMutex,
+            A: RingBuf<Item = T>,
+            T: 'static,
+        {
+            inner: alloc::sync::Arc<GenericChannelSharedState<MutexType, T, A>>,
+        }
+
+        #[cfg(futures_intrusive_verif)]
+        impl<MutexType, T, A> VerifObserver<MutexType, T, A>
+        where
+            MutexType: RawMutex,
+            A: RingBuf<Item = T>,
+        {
+            /// Verification hook, see `GenericChannel::verif_snapshot`.
+            pub fn verif_snapshot(
+                &self,
+                recv_out: &mut [crate::verif::VerifNode],
+                send_out: &mut [crate::verif::VerifNode],
+            ) -> (usize, usize) {
+                self.inner.channel.verif_snapshot(recv_out, send_out)
+            }
+
+            /// Verification hook: (is_closed, buffered elements).
+            pub fn verif_state(&self) -> (bool, usize) {
+                self.inner.channel.verif_state()
+            }
+
+            /// Verification hook: (sender handles, receiver handles).
+            pub fn verif_counts(&self) -> (usize, usize) {
+                (
+                    self.inner.senders.load(Ordering::SeqCst),
+                    self.inner.receivers.load(Ordering::SeqCst),
+                )
             }
         }
 
